@@ -334,6 +334,12 @@ func c12Commit(res *Result, step int, kind string, a, b, f *e2Node, colID string
 	lsys := cidlink.DefaultLinkSystem()
 	lsys.SetReadStorage(&bsadapter.Adapter{Wrapped: datastore.BlockstoreFrom(f.DB.Rootstore())})
 	lsys.TrustedStorage = true
+	type forgedPush struct {
+		name, docID string
+		c           cid.Cid
+		raw         []byte
+	}
+	var forgedPushes []forgedPush
 	for _, tp := range tampers {
 		forged := genuine.Clone()
 		forged.Heads = append([]cidlink.Link{}, genuine.Heads...)
@@ -365,6 +371,7 @@ func c12Commit(res *Result, step int, kind string, a, b, f *e2Node, colID string
 		if tp.name == "docID" {
 			docID = otherDoc
 		}
+		forgedPushes = append(forgedPushes, forgedPush{tp.name, docID, fc, raw})
 		rpcErr := b.Peer.SimHandlePushLog(b.ctx, f.PID, defranet.SimPushLog{DocID: docID, CID: fc.Bytes(), CollectionID: colID, Creator: f.PID.String(), Block: raw})
 		synctest.Wait()
 		b.TakeMerges()
@@ -398,5 +405,29 @@ func c12Commit(res *Result, step int, kind string, a, b, f *e2Node, colID string
 	// and verifies on the receiver as well
 	if err := b.DB.VerifySignature(b.reqCtx(), up.Cid.String(), signer.PublicKey()); err != nil {
 		res.violate("C12", "own-signature-rejected", "receiver/"+kind, step, "on the receiver VerifySignature failed for %s: %v", cidShort(up.Cid.String()), err)
+		return
+	}
+	// (c) the same forged commits once more, now that the receiver has verified and merged the genuine one
+	// (whatever it remembers about the genuine signature must not vouch for them)
+	afterGenuine, err := c12ReceiverState(b)
+	if err != nil {
+		res.HarnessErr = "receiver dump: " + err.Error()
+		return
+	}
+	for _, fp := range forgedPushes {
+		rpcErr := b.Peer.SimHandlePushLog(b.ctx, f.PID, defranet.SimPushLog{DocID: fp.docID, CID: fp.c.Bytes(), CollectionID: colID, Creator: f.PID.String(), Block: fp.raw})
+		synctest.Wait()
+		b.TakeMerges()
+		res.Stats["tampered_pushes_after_genuine"]++
+		after, err := c12ReceiverState(b)
+		if err != nil {
+			res.violate("C12", "receiver-unreadable-after-forged-push", fp.name+"/"+kind, step, "%v", err)
+			return
+		}
+		if after != afterGenuine {
+			res.violate("C12", "forged-commit-merged", "forged-commit-merged/after-genuine/"+fp.name+"/"+kind, step,
+				"a %s commit with its %s changed (signature attached, rpc error=%v), pushed after the genuine commit had been merged, changed the receiver's documents, history or heads", kind, fp.name, rpcErr)
+			return
+		}
 	}
 }
